@@ -74,6 +74,71 @@ theorem services_never_rewrite (c : Cfg) (host : Host) (qt : QType)
   rw [h]
   exact toInternal_not_rewrite ..
 
+/-- The list a verdict is attributed to. -/
+def Verdict.list? : Verdict → Option ListId
+  | .none => Option.none
+  | .allowed l => some l
+  | .blocked l => some l
+  | .modReq l _ => some l
+  | .modResp l _ _ => some l
+  | .hashResp l _ _ => some l
+
+/-- A `$dnsrewrite` rule of the list matches the name (rule-level reading, no model function). -/
+def HasRewriteRule (rs : List Rule) (host : Host) : Prop :=
+  ∃ d rw, Rule.rewrite d rw ∈ rs ∧ domMatch d host = true
+
+/-- **rewrite_wins_rules.**  Rule-level form of clause 1: if no source consulted earlier (custom,
+then the shared lists in configured order) has any `$dnsrewrite` rule matching the name, and the list
+`id` has one (none of them a CNAME of the name to itself, which is a no-op), then the verdict of
+the whole request filter is a rewrite attributed to `id` — whatever allow, block and hosts rules,
+blocked services and request filters say. -/
+theorem rewrite_wins_rules (c : Cfg) (host : Host) (qt : QType) (pre post : List (ListId × List Rule))
+    (id : ListId) (rs : List Rule)
+    (hsplit : c.rewriteSources = pre ++ (id, rs) :: post)
+    (hpre : ∀ p ∈ pre, ¬ HasRewriteRule p.2 host)
+    (hhas : HasRewriteRule rs host)
+    (hself : ∀ d, Rule.rewrite d (.cname host) ∈ rs → domMatch d host = false) :
+    (filterRequest c host qt).isRewrite = true ∧ (filterRequest c host qt).list? = some id := by
+  have hne : processRewrites host qt (rewriteHits rs host) id ≠ .none := by
+    apply processRewrites_ne_none
+    · obtain ⟨d, rw, hr, hm⟩ := hhas
+      intro he
+      have : rw ∈ rewriteHits rs host := (mem_rewriteHits rs host rw).mpr ⟨d, hr, hm⟩
+      rw [he] at this
+      cases this
+    · intro hm
+      obtain ⟨d, hr, hd⟩ := (mem_rewriteHits rs host _).mp hm
+      rw [hself d hr] at hd
+      cases hd
+  have hpre' : ∀ p ∈ pre, processRewrites host qt (rewriteHits p.2 host) p.1 = .none := by
+    intro p hp
+    have : rewriteHits p.2 host = [] := by
+      cases h : rewriteHits p.2 host with
+      | nil => rfl
+      | cons rw rest =>
+        exfalso
+        have hm : rw ∈ rewriteHits p.2 host := by rw [h]; exact List.mem_cons_self ..
+        obtain ⟨d, hr, hd⟩ := (mem_rewriteHits p.2 host rw).mp hm
+        exact hpre p hp ⟨d, rw, hr, hd⟩
+    rw [this]
+    exact processRewrites_nil ..
+  rw [rewrite_wins c host qt pre post id rs hsplit hpre' hne]
+  rcases processRewrites_id host qt (rewriteHits rs host) id with h | ⟨t, h⟩ | ⟨rc, vs, h⟩
+  · exact absurd h hne
+  · rw [h]; exact ⟨rfl, rfl⟩
+  · rw [h]; exact ⟨rfl, rfl⟩
+
+/-- `rewrite_wins_rules` is not vacuous: the custom list has an allow rule and no rewrite, shared
+list 7 has a rewrite for another name, shared list 2 rewrites; a service list would block. -/
+example : let c : Cfg := { custom := some [.net ["a", "test"] true .any],
+                           lists := [(7, [.rewrite ["b", "test"] (.rcode 3)]), (2, [.rewrite ["test"] (.ip4 "1.1.1.1")])],
+                           svcs := [(0, [.net ["a", "test"] false .any])] }
+    c.rewriteSources = [(ListId.custom, [.net ["a", "test"] true .any]), (.shared 7, [.rewrite ["b", "test"] (.rcode 3)])] ++
+      (.shared 2, [.rewrite ["test"] (.ip4 "1.1.1.1")]) :: [] ∧
+    HasRewriteRule [.rewrite ["test"] (.ip4 "1.1.1.1")] ["a", "test"] ∧
+    filterRequest c ["a", "test"] 1 = .modResp (.shared 2) 0 ["1.1.1.1"] :=
+  ⟨by decide, ⟨["test"], .ip4 "1.1.1.1", by decide, by decide⟩, by decide⟩
+
 /-! ## Clause 2: an allow rule from any source beats every block rule; a matching block blocks -/
 
 /-- All rule sources of a request: custom, shared lists, blocked services. -/
@@ -161,6 +226,207 @@ example : let c : Cfg := { custom := some [.net ["a", "test"] false .any],
     filterRequest c ["x", "a", "test"] 1 = .allowed (.svc 1) ∧
     filterRequest c ["x", "a", "test"] 28 = .blocked .custom := by decide
 
+/-- An allow (`@@`) rule of the list matches the name and type (rule-level reading). -/
+def HasAllowRule (rs : List Rule) (host : Host) (qt : QType) : Prop :=
+  ∃ d ts, Rule.net d true ts ∈ rs ∧ domMatch d host = true ∧ ts.ok qt = true
+
+/-- A block rule of the list matches: a network rule, or a hosts-style line for exactly this name. -/
+def HasBlockRule (rs : List Rule) (host : Host) (qt : QType) : Prop :=
+  (∃ d ts, Rule.net d false ts ∈ rs ∧ domMatch d host = true ∧ ts.ok qt = true) ∨
+  ∃ v6, Rule.hosts v6 host ∈ rs
+
+/-- No custom/shared list has a `$dnsrewrite` rule for the name. -/
+def NoRewriteRule (c : Cfg) (host : Host) : Prop := ∀ p ∈ c.rewriteSources, ¬ HasRewriteRule p.2 host
+
+theorem firstRewrite_none_of_NoRewriteRule (c : Cfg) (host : Host) (qt : QType) (h : NoRewriteRule c host) :
+    firstRewrite host qt c.rewriteSources = .none := by
+  apply firstRewrite_none_of_no_hits
+  intro p hp
+  cases hr : rewriteHits p.2 host with
+  | nil => rfl
+  | cons rw rest =>
+    exfalso
+    have hm : rw ∈ rewriteHits p.2 host := by rw [hr]; exact List.mem_cons_self ..
+    obtain ⟨d, hd, hdm⟩ := (mem_rewriteHits p.2 host rw).mp hm
+    exact h p hp ⟨d, rw, hd, hdm⟩
+
+/-- **allow_beats_block_rules.**  Rule-level form: no rewrite rule in play and one matching allow
+rule in ANY source — custom, a shared list, a blocked-service list — give an allow verdict of the
+rule lists, attributed to a source that really holds a matching allow rule, however many block and
+hosts rules match anywhere; the final request verdict is never a block. -/
+theorem allow_beats_block_rules (c : Cfg) (host : Host) (qt : QType)
+    (hrw : NoRewriteRule c host)
+    (hallow : ∃ p ∈ c.allSources, HasAllowRule p.2 host qt) :
+    (∃ p ∈ c.allSources, HasAllowRule p.2 host qt ∧ ruleListVerdict c host qt = .allowed p.1) ∧
+      ∀ l, filterRequest c host qt ≠ .blocked l := by
+  have hfr := firstRewrite_none_of_NoRewriteRule c host qt hrw
+  have hex : ∃ y ∈ allNets c.allSources host qt, y.2.1 = true := by
+    obtain ⟨p, hp, d, ts, hr, hd, ht⟩ := hallow
+    exact ⟨(p.1, true, ts.count), (mem_allNets ..).mpr ⟨p, hp, (mem_netHits ..).mpr ⟨d, true, ts, hr, hd, ht, rfl⟩⟩, rfl⟩
+  refine ⟨?_, (allow_beats_block c host qt hfr hex).2⟩
+  obtain ⟨r, hm, ha, hc⟩ := combined_allow c.allSources host qt hex
+  obtain ⟨p, hp, hy⟩ := (mem_allNets ..).mp hm
+  obtain ⟨d, a, ts, hr, hd, ht, rfl⟩ := (mem_netHits ..).mp hy
+  simp only at ha
+  subst ha
+  refine ⟨p, hp, ⟨d, ts, hr, hd, ht⟩, ?_⟩
+  unfold ruleListVerdict
+  rw [hfr]
+  exact hc
+
+/-- **block_blocks_rules.**  Rule-level form: no rewrite rule, no matching allow rule anywhere, and
+the verdict is a block iff some source holds a matching block rule (a hosts-style line counts unless
+a network rule of the same list matches as well, which the engine then prefers). -/
+theorem block_iff_rules (c : Cfg) (host : Host) (qt : QType)
+    (hrw : NoRewriteRule c host)
+    (hnoallow : ∀ p ∈ c.allSources, ¬ HasAllowRule p.2 host qt) :
+    ((∃ l, filterRequest c host qt = .blocked l) ↔ ∃ p ∈ c.allSources, HasBlockRule p.2 host qt) ∧
+    ∀ l, filterRequest c host qt = .blocked l → ∃ p ∈ c.allSources, p.1 = l ∧ HasBlockRule p.2 host qt := by
+  have hfr := firstRewrite_none_of_NoRewriteRule c host qt hrw
+  have hna : ∀ y ∈ allNets c.allSources host qt, y.2.1 = false := by
+    intro y hy
+    obtain ⟨p, hp, hy⟩ := (mem_allNets ..).mp hy
+    obtain ⟨d, a, ts, hr, hd, ht, rfl⟩ := (mem_netHits ..).mp hy
+    cases a with
+    | false => rfl
+    | true => exact absurd ⟨d, ts, hr, hd, ht⟩ (hnoallow p hp)
+  have hrl : ruleListVerdict c host qt = combined c.allSources host qt := by
+    unfold ruleListVerdict; rw [hfr]; rfl
+  -- a blocked verdict names a source with a matching block rule
+  have hsrc : ∀ l, combined c.allSources host qt = .blocked l →
+      ∃ p ∈ c.allSources, p.1 = l ∧ HasBlockRule p.2 host qt := by
+    intro l hl
+    by_cases hempty : allNets c.allSources host qt = [] ∧ allHosts c.allSources host qt false = [] ∧
+        allHosts c.allSources host qt true = []
+    · rw [combined_none _ _ _ hempty.1 hempty.2.1 hempty.2.2] at hl; cases hl
+    · have hb : allNets c.allSources host qt ≠ [] ∨ allHosts c.allSources host qt false ≠ [] ∨
+          allHosts c.allSources host qt true ≠ [] := by
+        by_cases h1 : allNets c.allSources host qt = []
+        · by_cases h2 : allHosts c.allSources host qt false = []
+          · exact Or.inr (Or.inr (fun h3 => hempty ⟨h1, h2, h3⟩))
+          · exact Or.inr (Or.inl h2)
+        · exact Or.inl h1
+      obtain ⟨l', hl', hwho⟩ := combined_block c.allSources host qt hna hb
+      rw [hl] at hl'
+      cases hl'
+      rcases hwho with ⟨y, hy, rfl⟩ | h | h
+      · obtain ⟨p, hp, hy⟩ := (mem_allNets ..).mp hy
+        obtain ⟨d, a, ts, hr, hd, ht, rfl⟩ := (mem_netHits ..).mp hy
+        have := hna _ ((mem_allNets ..).mpr ⟨p, hp, (mem_netHits ..).mpr ⟨d, a, ts, hr, hd, ht, rfl⟩⟩)
+        simp only at this
+        subst this
+        exact ⟨p, hp, rfl, Or.inl ⟨d, ts, hr, hd, ht⟩⟩
+      · unfold allHosts at h
+        obtain ⟨p, hp, hm⟩ := List.mem_flatMap.mp h
+        obtain ⟨rfl, hr, _⟩ := mem_hostsHits _ _ _ _ _ _ hm
+        exact ⟨p, hp, rfl, Or.inr ⟨false, hr⟩⟩
+      · unfold allHosts at h
+        obtain ⟨p, hp, hm⟩ := List.mem_flatMap.mp h
+        obtain ⟨rfl, hr, _⟩ := mem_hostsHits _ _ _ _ _ _ hm
+        exact ⟨p, hp, rfl, Or.inr ⟨true, hr⟩⟩
+  have hfin : ∀ l, filterRequest c host qt = .blocked l → combined c.allSources host qt = .blocked l := by
+    intro l hl
+    unfold filterRequest at hl
+    rw [hrl] at hl
+    have hshape := reqFilterVerdicts_shape c host qt
+    revert hl
+    cases hcv : combined c.allSources host qt with
+    | blocked l' => simp
+    | none =>
+      simp only
+      rcases firstSome_mem (reqFilterVerdicts c host qt) with h | h
+      · rw [h]; simp
+      · rcases hshape _ h with h' | h'
+        · rw [h']; simp
+        · revert h'; cases firstSome (reqFilterVerdicts c host qt) <;> simp [Verdict.isRewrite]
+    | allowed l' =>
+      rcases firstSome_mem (reqFilterVerdicts c host qt) with h | h
+      · rw [h]; cases l' <;> simp
+      · rcases hshape _ h with h' | h'
+        · rw [h']; cases l' <;> simp
+        · revert h'; cases firstSome (reqFilterVerdicts c host qt) <;> cases l' <;> simp [Verdict.isRewrite]
+    | modReq l' t => simp
+    | modResp l' rc vs => simp
+    | hashResp l' a b => simp
+  refine ⟨⟨?_, ?_⟩, fun l hl => hsrc l (hfin l hl)⟩
+  · rintro ⟨l, hl⟩
+    obtain ⟨p, hp, _, hb⟩ := hsrc l (hfin l hl)
+    exact ⟨p, hp, hb⟩
+  · rintro ⟨p, hp, hb⟩
+    have hblock : allNets c.allSources host qt ≠ [] ∨ allHosts c.allSources host qt false ≠ [] ∨
+        allHosts c.allSources host qt true ≠ [] := by
+      rcases hb with ⟨d, ts, hr, hd, ht⟩ | ⟨v6, hr⟩
+      · left
+        intro he
+        have : (p.1, false, ts.count) ∈ allNets c.allSources host qt :=
+          (mem_allNets ..).mpr ⟨p, hp, (mem_netHits ..).mpr ⟨d, false, ts, hr, hd, ht, rfl⟩⟩
+        rw [he] at this; cases this
+      · by_cases hn : netHits p.1 p.2 host qt = []
+        · right
+          have hmem : p.1 ∈ hostsHits p.1 p.2 host qt v6 := by
+            unfold hostsHits
+            simp only [hn, List.isEmpty_nil, if_true, List.mem_filterMap]
+            exact ⟨_, hr, by simp⟩
+          have hall : p.1 ∈ allHosts c.allSources host qt v6 := by
+            unfold allHosts
+            exact List.mem_flatMap.mpr ⟨p, hp, hmem⟩
+          cases v6 with
+          | false => exact Or.inl (fun he => by rw [he] at hall; cases hall)
+          | true => exact Or.inr (fun he => by rw [he] at hall; cases hall)
+        · left
+          intro he
+          cases hh : netHits p.1 p.2 host qt with
+          | nil => exact hn hh
+          | cons y ys =>
+            have : y ∈ allNets c.allSources host qt :=
+              (mem_allNets ..).mpr ⟨p, hp, by rw [hh]; exact List.mem_cons_self ..⟩
+            rw [he] at this; cases this
+    obtain ⟨l, _, hl⟩ := block_blocks c host qt hfr hna hblock
+    exact ⟨l, hl⟩
+
+/-- The rule-level hypotheses are satisfiable together with interesting verdicts: a service list
+allows what the custom list and a hosts line block; for AAAA only the blocks remain. -/
+def exC : Cfg := { custom := some [.net ["a", "test"] false .any],
+                   lists := [(3, [.hosts false ["x", "a", "test"]])],
+                   svcs := [(1, [.net ["x", "a", "test"] true (.only 1)])] }
+
+example : NoRewriteRule exC ["x", "a", "test"] ∧
+    (∃ p ∈ exC.allSources, HasAllowRule p.2 ["x", "a", "test"] 1) ∧
+    (∀ p ∈ exC.allSources, ¬ HasAllowRule p.2 ["x", "a", "test"] 28) ∧
+    (∃ p ∈ exC.allSources, HasBlockRule p.2 ["x", "a", "test"] 28) ∧
+    filterRequest exC ["x", "a", "test"] 1 = .allowed (.svc 1) ∧
+    filterRequest exC ["x", "a", "test"] 28 = .blocked .custom := by
+  refine ⟨?_, ⟨(.svc 1, [.net ["x", "a", "test"] true (.only 1)]), by decide,
+      ["x", "a", "test"], .only 1, by decide, by decide, by decide⟩, ?_,
+    ⟨(.custom, [.net ["a", "test"] false .any]), by decide,
+      Or.inl ⟨["a", "test"], .any, by decide, by decide, by decide⟩⟩, by decide, by decide⟩
+  · intro p hp ⟨d, rw, hr, _⟩
+    simp [exC, Cfg.rewriteSources] at hp
+    rcases hp with rfl | rfl <;> simp at hr
+  · intro p hp ⟨d, ts, hr, hd, ht⟩
+    simp [exC, Cfg.allSources, Cfg.rewriteSources, Cfg.svcSources] at hp
+    rcases hp with rfl | rfl | rfl <;> simp at hr
+    obtain ⟨rfl, rfl⟩ := hr
+    revert ht; decide
+
+/-- **deciding_rule_first_max.**  Which rule decides among the matching allow/block rules of all
+sources (`rules.GetDNSBasicRule`): one that no other matching rule outranks — allow over block, then
+the rule with a `$dnstype` modifier — and of those the earliest in source order (custom, shared
+lists as configured, services). -/
+theorem deciding_rule_first_max (c : Cfg) (host : Host) (qt : QType)
+    (hrw : firstRewrite host qt c.rewriteSources = .none)
+    (hne : allNets c.allSources host qt ≠ []) :
+    ∃ r, ruleListVerdict c host qt = (if r.2.1 then .allowed r.1 else .blocked r.1) ∧
+      (∀ y ∈ allNets c.allSources host qt, higher y r = false) ∧
+      ∃ p1 p2, allNets c.allSources host qt = p1 ++ r :: p2 ∧ ∀ y ∈ p1, higher r y = true := by
+  obtain ⟨r, hr, hmax, hfirst⟩ := basicRule_first_max _ hne
+  refine ⟨r, ?_, hmax, hfirst⟩
+  unfold ruleListVerdict combined toInternal
+  rw [hrw]
+  simp only [Cfg.allSources] at hr
+  obtain ⟨id, al, n⟩ := r
+  simp [hr]
+
 /-! ## Clause 3: unless the deciding allow is the profile's own, the request filters apply in order -/
 
 /-- **custom_allow_stops.** When the deciding allow rule is the custom list's, nothing else is
@@ -169,6 +435,100 @@ theorem custom_allow_stops (c : Cfg) (host : Host) (qt : QType)
     (h : ruleListVerdict c host qt = .allowed .custom) :
     filterRequest c host qt = .allowed .custom := by
   unfold filterRequest; rw [h]
+
+/-- **custom_allow_decides.**  When the profile's own list holds a matching allow rule that no
+matching rule of any source outranks, the deciding allow is the profile's own (it comes first in
+source order) and nothing else — no safety filter — is consulted. -/
+theorem custom_allow_decides (c : Cfg) (host : Host) (qt : QType) (rs : List Rule) (n : Nat)
+    (hrw : firstRewrite host qt c.rewriteSources = .none)
+    (hc : c.custom = some rs)
+    (hmem : (ListId.custom, true, n) ∈ netHits .custom rs host qt)
+    (hmax : ∀ y ∈ allNets c.allSources host qt, y.2.1 = true → y.2.2 ≤ n) :
+    filterRequest c host qt = .allowed .custom := by
+  have hsrc : c.allSources = (ListId.custom, rs) :: ((c.lists.map fun p => (ListId.shared p.1, p.2)) ++ c.svcSources) := by
+    simp [Cfg.allSources, Cfg.rewriteSources, hc]
+  have hin : (ListId.custom, true, n) ∈ allNets c.allSources host qt :=
+    (mem_allNets ..).mpr ⟨(.custom, rs), by rw [hsrc]; exact List.mem_cons_self .., hmem⟩
+  have hne : allNets c.allSources host qt ≠ [] := by
+    intro he; rw [he] at hin; cases hin
+  obtain ⟨r, hv, hmx, p1, p2, hsplit, hp1⟩ := deciding_rule_first_max c host qt hrw hne
+  -- `r` is an allow of maximal modifier count
+  have hr_allow : r.2.1 = true := by
+    have := hmx _ hin
+    obtain ⟨ri, ra, rn⟩ := r
+    cases ra with
+    | true => rfl
+    | false => simp [higher] at this
+  have hr_in : r ∈ allNets c.allSources host qt := by rw [hsplit]; simp
+  have hr_n : r.2.2 = n := by
+    have h1 := hmx _ hin
+    have h2 := hmax r hr_in hr_allow
+    obtain ⟨ri, ra, rn⟩ := r
+    simp only at hr_allow
+    subst hr_allow
+    simp only at h2
+    simp [higher] at h1
+    show rn = n
+    omega
+  -- every hit of the custom list that is not outranked by `r` cannot precede `r` unless it is `r`
+  have hr_custom : r.1 = .custom := by
+    -- the custom hit is either in p1 (impossible: r would strictly outrank it), r itself, or after r
+    rw [hsplit] at hin
+    rcases List.mem_append.mp hin with h | h
+    · have := hp1 _ h
+      obtain ⟨ri, ra, rn⟩ := r
+      simp only at hr_allow hr_n
+      subst hr_allow; subst hr_n
+      simp [higher] at this
+    · rcases List.mem_cons.mp h with h | h
+      · rw [← h]
+      · -- r precedes a custom hit: then r itself comes from the custom list, the first source
+        have hall : allNets c.allSources host qt =
+            netHits .custom rs host qt ++ allNets ((c.lists.map fun p => (ListId.shared p.1, p.2)) ++ c.svcSources) host qt := by
+          rw [hsrc]; simp [allNets]
+        have hnot : ∀ y ∈ allNets ((c.lists.map fun p => (ListId.shared p.1, p.2)) ++ c.svcSources) host qt, y.1 ≠ .custom := by
+          intro y hy
+          obtain ⟨p, hp, hy⟩ := (mem_allNets ..).mp hy
+          obtain ⟨d, a, ts, _, _, _, rfl⟩ := (mem_netHits ..).mp hy
+          simp only [List.mem_append, List.mem_map, Cfg.svcSources] at hp
+          rcases hp with ⟨q, _, rfl⟩ | ⟨q, _, rfl⟩ <;> simp
+        have hcust : ∀ y ∈ netHits .custom rs host qt, y.1 = .custom := by
+          intro y hy
+          obtain ⟨d, a, ts, _, _, _, rfl⟩ := (mem_netHits ..).mp hy
+          rfl
+        -- decompose: p1 ++ r :: p2 = A ++ B with a custom element in p2
+        rw [hall] at hsplit
+        by_cases hrA : r.1 = .custom
+        · exact hrA
+        · exfalso
+          -- r ∈ B, so everything after r is in B, contradiction with h
+          have hsplit' := hsplit
+          rcases List.append_eq_append_iff.mp hsplit' with ⟨a', ha1, ha2⟩ | ⟨b', hb1, hb2⟩
+          · -- p1 = A ++ a', B = a' ++ r :: p2
+            have : (ListId.custom, true, n) ∈ allNets ((c.lists.map fun p => (ListId.shared p.1, p.2)) ++ c.svcSources) host qt := by
+              rw [ha2]; simp [h]
+            exact hnot _ this rfl
+          · -- A = p1 ++ b', r :: p2 = b' ++ B
+            cases b' with
+            | nil =>
+              simp at hb2
+              have : (ListId.custom, true, n) ∈ allNets ((c.lists.map fun p => (ListId.shared p.1, p.2)) ++ c.svcSources) host qt := by
+                rw [← hb2]; simp [h]
+              exact hnot _ this rfl
+            | cons b0 bs =>
+              simp at hb2
+              obtain ⟨rfl, _⟩ := hb2
+              exact hrA (hcust _ (by rw [hb1]; simp))
+  apply custom_allow_stops
+  rw [hv, hr_allow, hr_custom]
+  rfl
+
+example : let c : Cfg := { custom := some [.net ["a", "test"] true .any],
+                           lists := [(0, [.net ["test"] true .any, .net ["a", "test"] false (.only 1)])],
+                           sb := some { hosts := [["a", "test"]], repl := ["r", "test"] } }
+    (ListId.custom, true, 0) ∈ netHits .custom [.net ["a", "test"] true .any] ["a", "test"] 1 ∧
+    (∀ y ∈ allNets c.allSources ["a", "test"] 1, y.2.1 = true → y.2.2 ≤ 0) ∧
+    filterRequest c ["a", "test"] 1 = .allowed .custom := by decide
 
 /-- **other_allow_continues.** When the rule lists allow through a shared or service list, or say
 nothing, the verdict is that of the first request filter that has one, and the rule-list verdict
@@ -207,6 +567,39 @@ example : let c : Cfg := { lists := [(0, [.net ["a", "test"] true .any])],
     filterRequest c ["a", "test"] 1 = .modReq .adult ["ad", "test"] ∧
     filterRequest c ["a", "test"] 16 = .allowed (.shared 0) := by decide
 
+/-- The verdict of one request-filter slot; a slot that is not enabled says nothing. -/
+def slotVerdict {α : Type} (o : Option α) (f : α → Verdict) : Verdict :=
+  match o with | some a => f a | Option.none => .none
+
+/-- **request_filters_any_subset.**  For EVERY subset of enabled safety filters the deciding one is
+found by going through the five slots in the fixed order dangerous domains, adult, general safe
+search, YouTube safe search, newly registered, a disabled slot counting as silent: the order of the
+enabled ones is never changed by which others are enabled. -/
+theorem request_filters_any_subset (c : Cfg) (host : Host) (qt : QType) :
+    firstSome (reqFilterVerdicts c host qt) =
+      firstSome [slotVerdict c.sb (fun f => hashVerdict .safeBrowsing f host qt),
+                 slotVerdict c.adult (fun f => hashVerdict .adult f host qt),
+                 slotVerdict c.genSS (fun rs => ssVerdict .genSS rs host qt),
+                 slotVerdict c.ytSS (fun rs => ssVerdict .ytSS rs host qt),
+                 slotVerdict c.newReg (fun f => hashVerdict .newReg f host qt)] := by
+  unfold reqFilterVerdicts
+  cases c.sb <;> cases c.adult <;> cases c.genSS <;> cases c.ytSS <;> cases c.newReg <;>
+    simp [optV, slotVerdict, firstSome_cons, firstSome]
+
+/-- Dangerous-domains disabled, adult and newly-registered both match: adult decides. -/
+example : let c : Cfg := { adult := some { hosts := [["a", "test"]], repl := ["ad", "test"] },
+                           newReg := some { hosts := [["test"]], repl := ["nr", "test"] } }
+    filterRequest c ["a", "test"] 1 = .modReq .adult ["ad", "test"] := by decide
+
+/-- **safety_filter_verdict_kinds.**  A safety filter never allows and never blocks by itself: it
+says nothing, sends the name elsewhere, or answers with a synthesised response. -/
+theorem safety_filter_verdict_kinds (c : Cfg) (host : Host) (qt : QType) :
+    firstSome (reqFilterVerdicts c host qt) = .none ∨
+      (firstSome (reqFilterVerdicts c host qt)).isRewrite = true := by
+  rcases firstSome_mem (reqFilterVerdicts c host qt) with h | h
+  · exact Or.inl h
+  · exact reqFilterVerdicts_shape c host qt _ h
+
 /-! ## Clause 4: request verdict over response verdict; filtering off -/
 
 /-- **request_over_response.** Whenever the request filter has a verdict, the answer is determined
@@ -220,6 +613,7 @@ theorem request_over_response (e : Env) (host : Host) (qt : QType) (c : Cfg)
       | .blocked _ => (blockedResp e.mode e.ttl host qt).getD blockedFallback
       | .allowed _ => e.upstream host qt
       | .modResp _ rc vals => rewriteMsg host qt e.ttl rc vals
+      | .hashResp _ v4 ip => hashRespMsg e.mode e.ttl host qt v4 ip
       | .none => e.upstream host qt := by
   unfold serve serveWith
   simp only [hf]
@@ -250,6 +644,191 @@ example : let e : Env := { sw := ⟨true, true, false⟩, prof := { custom := so
                            grp := {}, mode := .nullIP, ttl := 10,
                            upstream := fun _ _ => { rcode := 0, ans := [], soa := none, upNs := 1 } }
     serve e ["a", "test"] 1 = { rcode := 0, ans := [], soa := none, upNs := 1 } := by decide
+
+/-! ### The response filter: same precedence per answer record, never a rewrite -/
+
+/-- Name and type under which an answer record is matched against the rules. -/
+def Ans.key : Ans → Option (Host × QType)
+  | .a ip => some (ip, qtA)
+  | .aaaa ip => some (ip, qtAAAA)
+  | .cname t => some (t, qtCNAME)
+  | .other => Option.none
+
+/-- **response_never_rewrites.**  `$dnsrewrite` rules are not applied to responses: the response
+verdict is nothing, an allow or a block. -/
+theorem response_never_rewrites (c : Cfg) (answers : List Ans) :
+    (filterResponse c answers).isRewrite = false := by
+  unfold filterResponse
+  rcases firstSome_mem (answers.map (answerVerdict c)) with h | h
+  · rw [h]; rfl
+  · obtain ⟨a, _, ha⟩ := List.mem_map.mp h
+    rw [← ha]
+    cases a <;> first | exact toInternal_not_rewrite .. | rfl
+
+/-- **response_first_answer_decides.**  The answer records are looked at in order; the first one
+for which the rules have a verdict decides. -/
+theorem response_first_answer_decides (c : Cfg) (pre post : List Ans) (a : Ans)
+    (hpre : ∀ x ∈ pre, answerVerdict c x = .none) (ha : answerVerdict c a ≠ .none) :
+    filterResponse c (pre ++ a :: post) = answerVerdict c a := by
+  unfold filterResponse
+  simp only [List.map_append, List.map_cons]
+  apply firstSome_split _ _ _ _ ha
+  intro x hx
+  obtain ⟨y, hy, rfl⟩ := List.mem_map.mp hx
+  exact hpre y hy
+
+/-- **response_allow_beats_block.**  For one answer record (address or CNAME target) an allow rule
+of any source beats every block rule, and without an allow a matching block rule blocks — the same
+precedence as for the question, over all three kinds of sources. -/
+theorem response_allow_beats_block (c : Cfg) (a : Ans) (h : Host) (t : QType) (hk : a.key = some (h, t)) :
+    ((∃ p ∈ c.respSources, HasAllowRule p.2 h t) → ∃ l, answerVerdict c a = .allowed l) ∧
+    ((∀ p ∈ c.respSources, ¬ HasAllowRule p.2 h t) →
+      (∃ p ∈ c.respSources, ∃ d ts, Rule.net d false ts ∈ p.2 ∧ domMatch d h = true ∧ ts.ok t = true) →
+      ∃ l, answerVerdict c a = .blocked l) := by
+  have hv : answerVerdict c a = combined c.respSources h t := by
+    cases a <;> simp [Ans.key] at hk <;> obtain ⟨rfl, rfl⟩ := hk <;> rfl
+  rw [hv]
+  constructor
+  · rintro ⟨p, hp, d, ts, hr, hd, ht⟩
+    obtain ⟨r, _, _, hc⟩ := combined_allow c.respSources h t
+      ⟨(p.1, true, ts.count), (mem_allNets ..).mpr ⟨p, hp, (mem_netHits ..).mpr ⟨d, true, ts, hr, hd, ht, rfl⟩⟩, rfl⟩
+    exact ⟨_, hc⟩
+  · rintro hno ⟨p, hp, d, ts, hr, hd, ht⟩
+    have hna : ∀ y ∈ allNets c.respSources h t, y.2.1 = false := by
+      intro y hy
+      obtain ⟨q, hq, hy⟩ := (mem_allNets ..).mp hy
+      obtain ⟨d', a', ts', hr', hd', ht', rfl⟩ := (mem_netHits ..).mp hy
+      cases a' with
+      | false => rfl
+      | true => exact absurd ⟨d', ts', hr', hd', ht'⟩ (hno q hq)
+    have hne : allNets c.respSources h t ≠ [] := by
+      intro he
+      have : (p.1, false, ts.count) ∈ allNets c.respSources h t :=
+        (mem_allNets ..).mpr ⟨p, hp, (mem_netHits ..).mpr ⟨d, false, ts, hr, hd, ht, rfl⟩⟩
+      rw [he] at this; cases this
+    obtain ⟨l, hl, _⟩ := combined_block c.respSources h t hna (Or.inl hne)
+    exact ⟨l, hl⟩
+
+/-- The first answer (a CNAME) has no verdict, the second (an address) is blocked by a shared list
+although a later address is allowed by the custom list. -/
+example : let c : Cfg := { custom := some [.net ["192", "0", "2", "2"] true .any],
+                           lists := [(4, [.net ["192", "0", "2", "1"] false .any])] }
+    filterResponse c [.cname ["t", "test"], .a ["192", "0", "2", "1"], .a ["192", "0", "2", "2"]] = .blocked (.shared 4) ∧
+    answerVerdict c (.a ["192", "0", "2", "2"]) = .allowed .custom := by decide
+
+/-! ### Which lists fill which slots: `filterstorage.Default.ForConfig` -/
+
+/-- **disabled_parental_contributes_nothing.**  With parental control switched off, or inside its
+pause schedule, no blocked-service list, no adult filter and no safe search is part of the filter,
+whatever the individual switches say. -/
+theorem disabled_parental_contributes_nothing (st : Storage) (p : PCfg)
+    (h : p.parentalOn = false ∨ p.paused = true) :
+    (assemble st p).svcs = [] ∧ (assemble st p).adult = Option.none ∧
+      (assemble st p).genSS = Option.none ∧ (assemble st p).ytSS = Option.none := by
+  rcases h with h | h <;> simp [assemble, onlyIf, h]
+
+/-- **disabled_rule_lists_contribute_nothing** / **disabled_safe_browsing_contributes_nothing**. -/
+theorem disabled_rule_lists_contribute_nothing (st : Storage) (p : PCfg) (h : p.ruleListOn = false) :
+    (assemble st p).lists = [] := by
+  simp [assemble, h]
+
+theorem disabled_safe_browsing_contributes_nothing (st : Storage) (p : PCfg) (h : p.sbOn = false) :
+    (assemble st p).sb = Option.none ∧ (assemble st p).newReg = Option.none := by
+  simp [assemble, onlyIf, h]
+
+/-- **custom_slot.**  The custom slot is filled exactly for a client configuration whose custom
+rules are enabled and non-empty, with those rules. -/
+theorem custom_slot (st : Storage) (p : PCfg) (rs : List Rule) :
+    (assemble st p).custom = some rs ↔
+      p.isClient = true ∧ p.customOn = true ∧ p.customRules ≠ [] ∧ rs = p.customRules := by
+  unfold assemble
+  by_cases h : (p.isClient && p.customOn && !p.customRules.isEmpty) = true
+  · simp only [h, if_true, Option.some.injEq]
+    simp only [Bool.and_eq_true, Bool.not_eq_true', List.isEmpty_eq_false_iff] at h
+    constructor
+    · intro he; exact ⟨h.1.1, h.1.2, h.2, he.symm⟩
+    · intro he; exact he.2.2.2.symm
+  · simp only [h]
+    constructor
+    · intro he; cases he
+    · rintro ⟨h1, h2, h3, _⟩
+      exfalso; apply h
+      simp [h1, h2, h3]
+
+/-- **shared_lists_in_configured_order.**  The shared lists of the filter are the configured IDs
+that the storage knows, in the configured order (unknown IDs are skipped), each with the rules the
+storage holds for it. -/
+theorem shared_lists_in_configured_order (st : Storage) (p : PCfg) (h : p.ruleListOn = true) :
+    (assemble st p).lists.map (·.1) = p.listIds.filter (fun i => (st.lists.lookup i).isSome) ∧
+    ∀ q ∈ (assemble st p).lists, st.lists.lookup q.1 = some q.2 := by
+  have hl : (assemble st p).lists = pickKnown st.lists p.listIds := by simp [assemble, h]
+  rw [hl]
+  unfold pickKnown
+  constructor
+  · induction p.listIds with
+    | nil => rfl
+    | cons i is ih =>
+      cases hlk : st.lists.lookup i with
+      | none => simp [hlk, ih]
+      | some rs => simp [hlk, ih]
+  · intro q hq
+    obtain ⟨i, _, hi⟩ := List.mem_filterMap.mp hq
+    cases hlk : st.lists.lookup i with
+    | none => simp [hlk] at hi
+    | some rs => simp [hlk] at hi; subst hi; exact hlk
+
+/-- Everything switched off: the assembled filter is empty and nothing is filtered. -/
+theorem all_off_filters_nothing (st : Storage) (p : PCfg) (host : Host) (qt : QType) (answers : List Ans)
+    (h1 : p.parentalOn = false) (h2 : p.ruleListOn = false) (h3 : p.sbOn = false) (h4 : p.customOn = false) :
+    filterRequest (assemble st p) host qt = .none ∧ filterResponse (assemble st p) answers = .none := by
+  have he : assemble st p = {} := by simp [assemble, onlyIf, h1, h2, h3, h4]
+  rw [he]
+  constructor
+  · simp [filterRequest, ruleListVerdict, Cfg.rewriteSources, Cfg.svcSources, firstRewrite, combined, allNets,
+      allHosts, toInternal, basicRule, basicFrom, reqFilterVerdicts, optV, firstSome]
+  · unfold filterResponse
+    apply firstSome_all_none
+    intro x hx
+    obtain ⟨a, _, rfl⟩ := List.mem_map.mp hx
+    cases a <;> simp [answerVerdict, combined, Cfg.respSources, Cfg.svcSources, allNets, allHosts, toInternal,
+      basicRule, basicFrom]
+
+example : let st : Storage := { lists := [(0, [.net ["a", "test"] false .any]), (1, [.rewrite ["a", "test"] (.rcode 3)])],
+                                svcs := [(0, [.net ["a", "test"] false .any])] }
+    let p : PCfg := { customOn := false, customRules := [.net ["a", "test"] false .any], parentalOn := true, paused := true,
+                      svcIds := [0], ruleListOn := true, listIds := [9, 1, 0] }
+    (assemble st p).lists.map (·.1) = [1, 0] ∧ (assemble st p).custom = none ∧ (assemble st p).svcs = [] ∧
+    filterRequest (assemble st p) ["a", "test"] 1 = .modResp (.shared 1) 3 [] := by decide
+
+/-! ### Whose blocking mode and TTL: the requester's own -/
+
+/-- **requesters_own_mode.**  A requester with a profile (whose TTL is not negative) is answered
+with that profile's blocking mode and TTL whatever the server-wide settings are: changing the
+server's mode and TTL changes nothing in any answer.  An anonymous requester gets the server's. -/
+theorem requesters_own_mode (srv : Server) (p : Profile) (up : Host → QType → Msg) (host : Host) (qt : QType)
+    (m' : Mode) (t' : Nat) (hp : 0 ≤ p.ttl) :
+    (envOf srv (some p) up).mode = p.mode ∧ (envOf srv (some p) up).ttl = p.ttl.toNat ∧
+    serveReq { srv with mode := m', ttl := t' } (some p) up host qt = serveReq srv (some p) up host qt := by
+  have hn : ¬ p.ttl < 0 := by omega
+  refine ⟨by simp [envOf, ctorOf, hn], by simp [envOf, ctorOf, hn], ?_⟩
+  unfold serveReq envOf ctorOf
+  simp [hn]
+
+theorem anonymous_gets_server_mode (srv : Server) (up : Host → QType → Msg) :
+    (envOf srv Option.none up).mode = srv.mode ∧ (envOf srv Option.none up).ttl = srv.ttl ∧
+    (envOf srv Option.none up).sw.hasProfile = false := by
+  simp [envOf, ctorOf]
+
+/-- A profile in NXDOMAIN mode on a server in null-IP mode: the blocked answer is NXDOMAIN with the
+profile's TTL; the anonymous requester of the same server gets `0.0.0.0` with the server's TTL. -/
+example : let srv : Server := { st := { lists := [(0, [.net ["a", "test"] false .any])] }, mode := .nullIP, ttl := 10,
+                                grp := { ruleListOn := true, listIds := [0] } }
+    let p : Profile := { conf := { ruleListOn := true, listIds := [0] }, mode := .nxdomain, ttl := 77,
+                         filteringOn := true, devFilteringOn := true }
+    let up : Host → QType → Msg := fun _ _ => { rcode := 0, ans := [], soa := none }
+    serveReq srv (some p) up ["a", "test"] 1 = { rcode := 3, ans := [], soa := some 77 } ∧
+    serveReq srv none up ["a", "test"] 1 = { rcode := 0, ans := [synthRR ["a", "test"] 1 10 "0.0.0.0"], soa := none } := by
+  decide
 
 /-! ## Clause 5: shape of a blocked answer; no upstream data -/
 
@@ -374,6 +953,43 @@ theorem rewrite_no_upstream (e : Env) (host : Host) (qt : QType) (c : Cfg) (l : 
   rw [this]
   simp [NoUpstream, rewriteMsg, synthRR]
 
+/-- **safety_block_https_uses_mode.**  A safety filter with a replacement address answers an HTTPS
+query in the shape of the requester's blocking mode (NXDOMAIN, REFUSED, or NODATA for the IP modes)
+with the requester's TTL; an address query of the replacement's family gets that address, anything
+else NODATA — and nothing in these answers comes from upstream. -/
+theorem safety_block_https_uses_mode (m : Mode) (ttl : Nat) (host : Host) (v4 : Bool) (ip : String) :
+    hashRespMsg m ttl host qtHTTPS v4 ip =
+      (match m with
+       | .nxdomain => { rcode := 3, ans := [], soa := some ttl }
+       | .refused => { rcode := 5, ans := [], soa := some ttl }
+       | _ => { rcode := 0, ans := [], soa := some ttl }) := by
+  cases m <;> simp [hashRespMsg, blockedResp, nodata, qtHTTPS, qtA, qtAAAA]
+
+theorem safety_block_no_upstream (m : Mode) (ttl : Nat) (host : Host) (qt : QType) (v4 : Bool) (ip : String) :
+    NoUpstream (hashRespMsg m ttl host qt v4 ip) ∧ ∀ r ∈ (hashRespMsg m ttl host qt v4 ip).ans, r.ttl = ttl := by
+  unfold hashRespMsg
+  by_cases h1 : (qt == qtHTTPS) = true
+  · have hq : qt = qtHTTPS := by simpa using h1
+    subst hq
+    have := safety_block_https_uses_mode m ttl host v4 ip
+    unfold hashRespMsg at this
+    simp only [h1, if_true] at this ⊢
+    rw [this]
+    cases m <;> simp [NoUpstream]
+  · simp only [h1, Bool.false_eq_true, if_false]
+    split
+    · simp [NoUpstream, synthRR]
+    · split
+      · simp [NoUpstream, synthRR]
+      · simp [NoUpstream, nodata]
+
+example : let e : Env := { sw := ⟨true, true, true⟩,
+                           prof := { sb := some { hosts := [["a", "test"]], repl := [], replIP := some (true, "203.0.113.7") } },
+                           grp := {}, mode := .refused, ttl := 30, upstream := fun _ _ => { rcode := 0, ans := [], soa := none } }
+    serve e ["a", "test"] 65 = { rcode := 5, ans := [], soa := some 30 } ∧
+    serve e ["a", "test"] 1 = { rcode := 0, ans := [synthRR ["a", "test"] 1 30 "203.0.113.7"], soa := none } ∧
+    serve e ["a", "test"] 28 = { rcode := 0, ans := [], soa := some 30 } := by decide
+
 /-- An environment in which a block rule matches and the custom-IP mode is ill-formed (an IPv6
 address in the IPv4 list, which `backendpb`'s `UnmarshalBinary` lets through). -/
 def leakEnv : Env :=
@@ -402,6 +1018,27 @@ theorem blocked_leaks_upstream_counterexample :
   exact absurd this (by decide)
 
 #print axioms rewrite_wins
+#print axioms rewrite_wins_rules
+#print axioms allow_beats_block_rules
+#print axioms block_iff_rules
+#print axioms deciding_rule_first_max
+#print axioms custom_allow_decides
+#print axioms request_filters_any_subset
+#print axioms safety_filter_verdict_kinds
+#print axioms response_never_rewrites
+#print axioms response_first_answer_decides
+#print axioms response_allow_beats_block
+#print axioms disabled_parental_contributes_nothing
+#print axioms disabled_rule_lists_contribute_nothing
+#print axioms disabled_safe_browsing_contributes_nothing
+#print axioms custom_slot
+#print axioms shared_lists_in_configured_order
+#print axioms all_off_filters_nothing
+#print axioms requesters_own_mode
+#print axioms anonymous_gets_server_mode
+#print axioms safety_block_https_uses_mode
+#print axioms safety_block_no_upstream
+#print axioms firstRewrite_none_of_NoRewriteRule
 #print axioms custom_rewrite_first
 #print axioms services_never_rewrite
 #print axioms allow_beats_block
